@@ -84,6 +84,20 @@ static void pairs(Env& env, const std::string& stage, int n, int L, int k) {
         { ExplicitFiniteAut r = ExplicitFiniteAut::Union(a, a); if (!ref::equalLang(ref::readBackFA(r), A)) c.viol("Union(aliased)", "language_not_the_union", feats, det("Union(a, a); result: " + ref::readBackFA(r).str()), w); }
         { ExplicitFiniteAut r = ExplicitFiniteAut::Intersection(a, a); if (!ref::equalLang(ref::readBackFA(r), A)) c.viol("Intersection(aliased)", "language_not_the_intersection", feats, det("Intersection(a, a); result: " + ref::readBackFA(r).str()), w); } }
       if (ref::readBackFA(a) != A || ref::readBackFA(b) != B) c.viol("pair operations", "operand_changed", feats, det(""), w);
+      // the same pair built from a COMMON ANCESTOR: c = A meet B (edges, start and final states both have); a2, b2 = copies of c to which the rest is added.  The
+      // operands then share whatever storage the copy-on-write discipline lets them share (the whole transition table when the edge sets coincide).
+      { ref::NFA C; for (auto& e : A.edges) if (B.edges.count(e)) C.edges.insert(e); for (auto q : A.starts) if (B.starts.count(q)) C.starts.insert(q); for (auto q : A.finals) if (B.finals.count(q)) C.finals.insert(q);
+        const ExplicitFiniteAut::SymbolType SX = ref::startSymbol(); ExplicitFiniteAut anc = ref::buildFA(C); ExplicitFiniteAut a2(anc), b2; b2 = anc;
+        auto grow = [&](ExplicitFiniteAut& x, const ref::NFA& X) { for (auto q : X.finals) if (!C.finals.count(q)) x.SetStateFinal(q); for (auto q : X.starts) if (!C.starts.count(q)) x.SetStateStart(q, SX); for (auto& e : X.edges) if (!C.edges.count(e)) x.AddTransition(std::get<0>(e), std::get<1>(e), std::get<2>(e)); };
+        grow(a2, A); grow(b2, B); c.count("common_ancestor_pairs"); if (a2.core_->transitions_.get() == b2.core_->transitions_.get()) c.count("common_ancestor_pairs_sharing_the_whole_table");
+        std::vector<std::string> f2 = feats; f2.push_back("operands_derived_from_a_common_ancestor");
+        if (ref::readBackFA(a2) != A || ref::readBackFA(b2) != B || ref::readBackFA(anc) != C) c.viol("copies grown from a common ancestor", "handle_reads_wrong_value", f2, det("ancestor: " + C.str()), w);
+        else {
+          { ExplicitFiniteAut r = ExplicitFiniteAut::Union(a2, b2); ref::NFA R = ref::readBackFA(r); if (!ref::equalLang(R, ref::disjointUnion(A, B))) c.viol("Union", "language_not_the_union", f2, det("ancestor: " + C.str() + " result: " + R.str()), w); }
+          { ExplicitFiniteAut r = ExplicitFiniteAut::Intersection(a2, b2); ref::NFA R = ref::readBackFA(r); if (!ref::equalLang(R, prod)) c.viol("Intersection", !ref::included(R, prod) ? "accepts_word_outside_intersection" : "misses_word_of_intersection", f2, det("ancestor: " + C.str() + " result: " + R.str()), w); }
+          { ExplicitFiniteAut r = a2.Reverse(); if (!ref::equalLang(ref::readBackFA(r), ref::mirror(A))) c.viol("Reverse", "language_not_the_mirror_image", f2, det("ancestor: " + C.str()), w); }
+          { ExplicitFiniteAut r = b2.RemoveUselessStates(); if (!ref::equalLang(ref::readBackFA(r), B)) c.viol("RemoveUselessStates", "language_changed", f2, det("ancestor: " + C.str()), w); }
+          if (ref::readBackFA(a2) != A || ref::readBackFA(b2) != B || ref::readBackFA(anc) != C) c.viol("pair operations", "operand_changed", f2, det("ancestor: " + C.str()), w); } }
     } catch (std::exception& e) { c.viol("pair operations", "exception", feats, det(e.what()), w); }
   };
   env.parallel(o);
